@@ -7,6 +7,7 @@ import (
 	"fmt"
 	"strings"
 	"testing"
+	"time"
 
 	"github.com/gebn/bmc/pkg/dcmi"
 	"github.com/gebn/bmc/pkg/ipmi"
@@ -393,9 +394,114 @@ func TestSensorInfoThroughAPI(t *testing.T) {
 	})
 }
 
+// TestCountFields sweeps every value of the count / length bytes that announce a
+// variable-length tail (DCMI rolling-average periods, DCMI sensor record IDs,
+// the ID-string type/length byte of a Full Sensor Record) against bodies that
+// carry fewer, exactly as many, and more bytes than announced: fewer is an error
+// (never a panic), the others decode to exactly the announced elements.
+func TestCountFields(t *testing.T) {
+	decode := func(l gopacket.DecodingLayer, wire []byte) (err error, pan any) {
+		defer func() { pan = recover() }()
+		return l.DecodeFromBytes(exact(wire), gopacket.NilDecodeFeedback), nil
+	}
+	fail := func(layer string, count, present int, msg string) {
+		cs := map[string]any{"layer": layer, "announced": count, "present": present}
+		ev.Violation("TestCountFields", cs, msg)
+		t.Fatalf("%v: %s", cs, msg)
+	}
+	dom := ev.Domain("count byte x layer", 3*256)
+	for c := 0; c <= 255; c++ {
+		// DCMI capabilities parameter 5: count, then one byte per period
+		for _, n := range []int{0, 1, c / 2, c - 1, c, c + 3} {
+			if n < 0 {
+				continue
+			}
+			wire := []byte{1, 5, 2, byte(c)}
+			for i := 0; i < n; i++ {
+				wire = append(wire, byte(i*7+c))
+			}
+			cmd := dcmi.NewGetDCMICapabilitiesInfoEnhancedSystemPowerStatisticsAttrsCmd()
+			err, pan := decode(cmd.Response().(gopacket.DecodingLayer), wire)
+			ev.Eval()
+			switch {
+			case pan != nil:
+				fail("DCMI enhanced power statistics attributes", c, n, fmt.Sprintf("decoder panicked: %v", pan))
+			case n < c && err == nil:
+				fail("DCMI enhanced power statistics attributes", c, n, "body shorter than the announced periods decoded without an error")
+			case n >= c && err != nil:
+				fail("DCMI enhanced power statistics attributes", c, n, "valid body rejected: "+err.Error())
+			case n >= c:
+				if got := cmd.Rsp.PowerRollingAvgTimePeriods; len(got) != c {
+					fail("DCMI enhanced power statistics attributes", c, n, fmt.Sprintf("%d periods decoded", len(got)))
+				} else {
+					for i := range got {
+						if want := time.Duration(ref.RollingAvgSeconds(wire[4+i])) * time.Second; got[i] != want {
+							fail("DCMI enhanced power statistics attributes", c, n, fmt.Sprintf("period %d = %v, want %v", i, got[i], want))
+						}
+					}
+				}
+			}
+		}
+		dom.Visit(c)
+		// Get DCMI Sensor Info: instances, count, then two bytes per record ID
+		for _, n := range []int{0, 1, c, 2*c - 1, 2 * c, 2*c + 2} {
+			if n < 0 {
+				continue
+			}
+			wire := []byte{byte(255 - c), byte(c)}
+			for i := 0; i < n; i++ {
+				wire = append(wire, byte(i*5+c+1))
+			}
+			rsp := &dcmi.GetDCMISensorInfoRsp{}
+			err, pan := decode(rsp, wire)
+			ev.Eval()
+			switch {
+			case pan != nil:
+				fail("Get DCMI Sensor Info", c, n, fmt.Sprintf("decoder panicked: %v", pan))
+			case n < 2*c && err == nil:
+				fail("Get DCMI Sensor Info", c, n, "body shorter than the announced record IDs decoded without an error")
+			case n >= 2*c && err != nil:
+				fail("Get DCMI Sensor Info", c, n, "valid body rejected: "+err.Error())
+			case n >= 2*c:
+				if len(rsp.RecordIDs) != c || rsp.Instances != byte(255-c) {
+					fail("Get DCMI Sensor Info", c, n, fmt.Sprintf("%d record IDs, %d instances decoded", len(rsp.RecordIDs), rsp.Instances))
+				}
+				for i, id := range rsp.RecordIDs {
+					if want := uint16(wire[2+2*i]) | uint16(wire[3+2*i])<<8; uint16(id) != want {
+						fail("Get DCMI Sensor Info", c, n, fmt.Sprintf("record ID %d = %#x, want %#x", i, id, want))
+					}
+				}
+			}
+		}
+		dom.Visit(256 + c)
+		// Full Sensor Record: type/length byte c, ID string bytes cut short by 1..3
+		enc, chars := byte(c)>>6, c&0x1f
+		need := map[byte]int{ref.EncUnicode: chars, ref.EncBCDPlus: (chars + 1) / 2, ref.Enc6Bit: (chars*6 + 7) / 8, ref.Enc8Bit: chars}[enc]
+		f := ref.FSR{ID: ref.IDString{Enc: ref.Enc8Bit, Codes: []byte("ab")}}
+		body := f.Body()
+		body = body[:len(body)-3] // fixed part up to, not including, the type/length byte
+		for short := 1; short <= 3 && short <= need; short++ {
+			wire := append(append([]byte(nil), body...), byte(c))
+			for i := 0; i < need-short; i++ {
+				wire = append(wire, byte(0x41+i%26))
+			}
+			err, pan := decode(&ipmi.FullSensorRecord{}, wire)
+			ev.Eval()
+			if pan != nil {
+				fail("Full Sensor Record ID string", c, need-short, fmt.Sprintf("decoder panicked: %v", pan))
+			}
+			if err == nil {
+				fail("Full Sensor Record ID string", c, need-short, fmt.Sprintf("ID string of %d characters (encoding %d) needs %d bytes; %d present decoded without an error", chars, enc, need, need-short))
+			}
+		}
+		dom.Visit(512 + c)
+	}
+	ev.Label("sweep:count-fields")
+}
+
 func TestCoverage(t *testing.T) {
 	ev.RequireLabels(t, 1, "reject:checksum", "reject:covered-byte", "reject:length-field", "decode:GetSessionInfoRsp/3", "decode:GetSessionInfoRsp/6", "decode:GetSessionInfoRsp/18",
 		"decode:FullSensorRecord/enc0", "decode:FullSensorRecord/enc1", "decode:FullSensorRecord/enc2", "decode:FullSensorRecord/enc3", "decode:RAKPMessage2/status0=true",
-		"decode:DCMICaps/param2/v1.0", "decode:DCMICaps/param2/v1.5", "api:sensor-info:shorter-page-after-longer", "api:value-survives-next-command", "api-reject:mode0", "api-reject:mode1", "api-reject:mode2", "sweep:checksums")
+		"decode:DCMICaps/param2/v1.0", "decode:DCMICaps/param2/v1.5", "api:sensor-info:shorter-page-after-longer", "api:value-survives-next-command", "api-reject:mode0", "api-reject:mode1", "api-reject:mode2", "sweep:checksums", "sweep:count-fields")
 	_ = context.Background
 }
